@@ -79,7 +79,9 @@ type mprog struct {
 var mountPrefixes = []string{"/", "/api", "/api/", "/:v", "/a/b", "/Api", "/ab", "/abc", "/:Ver", "api", "v1",
 	// greedy parameters in the prefix: the mounted routes' own greedy parameters are numbered on
 	"/a/*/api", "/x/+", "/+/ab"}
-var mountPaths = []string{"/", "/a", "/ab", "/abc", "/x", "/:p", "/a/:p", "/*", "/abc/d", "/:p?", "/api", "/a/", "/:pId", "/a/:Key", `/a\:b`, `/x\*`, `/ab\+/:p`, "/Ab", "/abc/", "/x/Y/", "/ab/+", "/abc/*", "/+"}
+var mountPaths = []string{"/", "/a", "/ab", "/abc", "/x", "/:p", "/a/:p", "/*", "/abc/d", "/:p?", "/api", "/a/", "/:pId", "/a/:Key", `/a\:b`, `/x\*`, `/ab\+/:p`, "/Ab", "/abc/", "/x/Y/", "/ab/+", "/abc/*", "/+",
+	// escaped special characters as the whole route: literal paths "/*", "/+", "/:p"
+	`/\*`, `/\+`, `/\:p`}
 
 // routes whose parameter carries a custom constraint; %s is the constraint's name
 var mountConsPaths = []struct{ Path, Param string }{
@@ -1370,7 +1372,7 @@ func runMount(e *ev.Env) {
 			}
 		}
 		nreq := e.N(40, 60)
-		segs := []string{"", "/a", "/ab", "/abc", "/x", "/api", "/Api", "/a/b", "/v1", "/abc/d", "/", "/a:b", "/x*", "/ab+", "/Ab", "/AB", "/x/Y"}
+		segs := []string{"", "/a", "/ab", "/abc", "/x", "/api", "/Api", "/a/b", "/v1", "/abc/d", "/", "/a:b", "/x*", "/ab+", "/Ab", "/AB", "/x/Y", "/*", "/+", "/:p"}
 		var reqs [][2]string
 		for i := 0; i < nreq; i++ {
 			var sb strings.Builder
